@@ -21,7 +21,11 @@ func init() { register("C17", &Check{Run: runC17, Replay: replayC17}) }
 type c17Step struct {
 	Op  string `json:"op"` // load | tick | capture | report | reload-same
 	Ver int    `json:"version,omitempty"`
+	// Spell: how the host spells the package directory in this Load (0 = "app")
+	Spell int `json:"path_spelling,omitempty"`
 }
+
+var c17Spellings = []string{"app", "./app", "app/", "app/../app", "./app/", "store/../app", "app/."}
 
 type c17Case struct {
 	Versions int       `json:"versions"`
@@ -41,7 +45,7 @@ func c17Source(k int, shape int, asPackage bool) string {
 	}
 	fmt.Fprintf(&sb, "type T struct {\n\tN int\n\tLabel string\n}\n\ntype H struct {\n\tF func() string\n\tG func(int) string\n\tP func(int) string\n}\n\ntype Namer interface {\n\tM() string\n}\n\n")
 	// state
-	sb.WriteString("var keep int\nvar loads int\nvar saved func() string\nvar savedG func(int) string\nvar obj *T\nvar bound func() string\nvar boundP func(int) string\nvar holder *H\nvar list []func() string\nvar anyKeep any\nvar namer Namer\nvar lastErr error\n")
+	sb.WriteString("var keep int\nvar loads int\nvar saved func() string\nvar savedG func(int) string\nvar obj *T\nvar bound func() string\nvar boundP func(int) string\nvar holder *H\nvar list []func() string\nvar anyKeep any\nvar namer Namer\nvar lastErr error\nvar hits, misses int\nvar cache map[string]int\nvar queue []int\nvar fa, fb float64\n")
 	fmt.Fprintf(&sb, "var reset = %d\nvar resetS = \"init-v%d\"\n", 100*k, k)
 	// a variable initialised with a function literal: an initialiser like any other (the variable starts over with every
 	// load, whatever it was pointed at in between, and the functions it was pointed at keep their own bodies)
@@ -82,9 +86,9 @@ func c17Source(k int, shape int, asPackage bool) string {
 	// Mid is running while the host loads another version (reloadnow is a host function): the running body goes on,
 	// and what it reads and calls afterwards is the reloaded state and code
 	sb.WriteString("func Mid() string {\n\tbefore := keep\n\tr0 := reset\n\treloadnow()\n\tkeep++\n\treset += 5\n\treturn fmt.Sprint(before, keep, r0 > 0, reset) + \" \" + f1() + \" \" + resetS + fmt.Sprint(filler())\n}\n\n")
-	sb.WriteString("func Tick() {\n\tkeep++\n\treset++\n\tresetS += \"+\"\n" + c17StoreTick(asPackage) + "\tzi++\n\tzb = true\n\tzs += \"t\"\n\tzf += 0.5\n\tanyKeep = keep\n\tif obj != nil {\n\t\tobj.N += 10\n\t}\n}\n\n")
+	sb.WriteString("func Tick() {\n\tkeep++\n\treset++\n\tresetS += \"+\"\n" + c17StoreTick(asPackage) + "\tzi++\n\tzb = true\n\tzs += \"t\"\n\tzf += 0.5\n\tanyKeep = keep\n\thits++\n\tmisses += 2\n\tfa += 0.5\n\tfb += fa\n\tif cache == nil {\n\t\tcache = map[string]int{}\n\t}\n\tcache[\"k\"] = keep\n\tif keep%2 == 0 {\n\t\tdelete(cache, \"k\")\n\t}\n\tqueue = append(queue, keep)\n\tif keep%3 == 0 {\n\t\tqueue = queue[:0]\n\t}\n\tif obj != nil {\n\t\tobj.N += 10\n\t}\n}\n\n")
 	sb.WriteString("func Capture() {\n\tsaved = f0\n\tsavedG = g\n\tobj = &T{N: keep, Label: \"L\"}\n\tbound = obj.M\n\tboundP = obj.P\n\tholder = &H{F: f1, G: g, P: obj.P}\n\tlist = append(list, f1)\n\thook = f1\n\tnamer = obj\n\tlastErr = errors.New(\"e\" + fmt.Sprint(keep))\n}\n\n")
-	sb.WriteString("func Report() string {\n\ts := f0() + \" \" + f1() + \" \" + g(2)\n\tif saved != nil {\n\t\ts += \" saved=\" + saved() + \" savedG=\" + savedG(3) + \" bound=\" + bound() + \" holder=\" + holder.F() + holder.G(4) + \" obj=\" + obj.M() + \" boundP=\" + boundP(5) + \" holderP=\" + holder.P(6) + \" namer=\" + namer.M() + \" err=\" + lastErr.Error()\n\t\tfor _, f := range list {\n\t\t\ts += \" l=\" + f()\n\t\t}\n\t} else {\n\t\ts += \" saved=nil\"\n\t}\n\tif obj != nil && HasExtra {\n\t\ts += \" extra=\" + obj.Extra()\n\t}\n\tif anyKeep != nil {\n\t\ts += \" any=\" + fmt.Sprint(anyKeep)\n\t} else {\n\t\ts += \" any=nil\"\n\t}\n" + c17StoreReport(asPackage) + "\ts += \" hook=\" + hook()\n\ts += \" bump=\" + fmt.Sprint(Bump()) + \" z=\" + fmt.Sprint(zi) + fmt.Sprint(zb) + zs + fmt.Sprint(zf)\n\treturn s + \" keep=\" + fmt.Sprint(keep) + \" reset=\" + fmt.Sprint(reset) + \" resetS=\" + resetS + \" loads=\" + fmt.Sprint(loads)\n}\n")
+	sb.WriteString("func Report() string {\n\ts := f0() + \" \" + f1() + \" \" + g(2)\n\tif saved != nil {\n\t\ts += \" saved=\" + saved() + \" savedG=\" + savedG(3) + \" bound=\" + bound() + \" holder=\" + holder.F() + holder.G(4) + \" obj=\" + obj.M() + \" boundP=\" + boundP(5) + \" holderP=\" + holder.P(6) + \" namer=\" + namer.M() + \" err=\" + lastErr.Error()\n\t\tfor _, f := range list {\n\t\t\ts += \" l=\" + f()\n\t\t}\n\t} else {\n\t\ts += \" saved=nil\"\n\t}\n\tif obj != nil && HasExtra {\n\t\ts += \" extra=\" + obj.Extra()\n\t}\n\tif anyKeep != nil {\n\t\ts += \" any=\" + fmt.Sprint(anyKeep)\n\t} else {\n\t\ts += \" any=nil\"\n\t}\n" + c17StoreReport(asPackage) + "\ts += \" hook=\" + hook()\n\ts += \" hm=\" + fmt.Sprint(hits, misses, fa, fb) + \" cache=\" + fmt.Sprint(cache == nil, len(cache)) + \" queue=\" + fmt.Sprint(queue == nil, len(queue))\n\ts += \" bump=\" + fmt.Sprint(Bump()) + \" z=\" + fmt.Sprint(zi) + fmt.Sprint(zb) + zs + fmt.Sprint(zf)\n\treturn s + \" keep=\" + fmt.Sprint(keep) + \" reset=\" + fmt.Sprint(reset) + \" resetS=\" + resetS + \" loads=\" + fmt.Sprint(loads)\n}\n")
 	return sb.String()
 }
 
@@ -124,6 +128,9 @@ type c17Model struct {
 	ticks     int // all ticks so far (store.Kept)
 	zticks    int // ticks since the last load: variables whose initialiser is a zero value are re-initialised too
 	evalLoads int
+	cacheLen  int // entries of cache after the last tick (the map itself exists from the first tick on, also when empty)
+	queueLen  int
+	fb        float64
 }
 
 // hook: what the variable initialised with a function literal returns when called.
@@ -166,6 +173,7 @@ func (m *c17Model) report() string {
 		s += fmt.Sprintf(" store=%d %d", 100+m.zticks, m.ticks)
 	}
 	s += " hook=" + m.hook()
+	s += fmt.Sprintf(" hm=%d %d %v %v cache=%v %d queue=%v %d", m.ticks, 2*m.ticks, float64(m.ticks)/2, m.fb, m.ticks == 0, m.cacheLen, m.ticks == 0, m.queueLen)
 	s += fmt.Sprintf(" bump=768 z=%d%v%s%v", m.zticks, m.zticks > 0, strings.Repeat("t", m.zticks), float64(m.zticks)/2)
 	return s + fmt.Sprintf(" keep=%d reset=%d resetS=%s loads=%d", m.keep, m.reset, m.resetS, m.loads)
 }
@@ -181,6 +189,9 @@ func c17Gen(seed int64, idx int) c17Case {
 		case r < 3:
 			cur = rng.Range(1, c.Versions)
 			c.Steps = append(c.Steps, c17Step{Op: "load", Ver: cur})
+			if rng.Chance(1, 3) {
+				c.Steps[len(c.Steps)-1].Spell = rng.Intn(len(c17Spellings))
+			}
 		case r < 4 && rng.Chance(1, 3):
 			c.Steps = append(c.Steps, c17Step{Op: "load-broken"})
 		case r < 4 && rng.Bool():
@@ -225,7 +236,7 @@ func c17Run(c c17Case) (what string, trace []string) {
 			if c.Via == "load" {
 				sys := core.MapFS(map[string]string{"app/app.go": c17Source(st.Ver, c.Shape, true), "store/store.go": c17Store})
 				var err error
-				if p := core.Guard(func() { err = m.VM.Load(sys, "app") }); p != "" {
+				if p := core.Guard(func() { err = m.VM.Load(sys, c17Spellings[st.Spell%len(c17Spellings)]) }); p != "" {
 					o.Panic = p
 				}
 				if err != nil {
@@ -254,6 +265,12 @@ func c17Run(c c17Case) (what string, trace []string) {
 			model.zticks++
 			model.ticks++
 			model.anySet, model.anyV = true, model.keep
+			model.fb += float64(model.ticks) / 2
+			model.cacheLen = model.keep % 2
+			model.queueLen++
+			if model.keep%3 == 0 {
+				model.queueLen = 0
+			}
 			if model.captured {
 				model.objN += 10
 			}
@@ -326,7 +343,7 @@ func c17Run(c c17Case) (what string, trace []string) {
 }
 
 func runC17(r *core.Run) {
-	r.SetRule("histories of 5-30 steps (load version k of 2-6, reload the same version, load a version from a host function while a script function is running, load a version that fails while its top-level code runs, tick, capture, report; the host also calls a variable that holds a function by name) over a generated package whose function and method bodies return a version tag; captured before reloads: a function value in a no-initialiser global, function values in struct fields and in a slice, a bound method value, an instance; state: no-initialiser int and counters (kept), int and string variables with initialisers (re-initialised), variables whose initialiser spells the zero value (re-initialised), a function whose locals shadow package variables and are updated with += / ++ ; versions also differ in the arity of an internal helper and in added methods; every version brings 130 literals of its own (the VM's tables grow on its first load); the package imports a package whose source never changes (its initialised variable starts over with every load, its other variable is kept); through Load of a package and through repeated Eval of the definitions. non-trivial = at least 2 loads and 1 report after a capture; distinct by history")
+	r.SetRule("histories of 5-30 steps (load version k of 2-6, reload the same version, load a version from a host function while a script function is running, load a version that fails while its top-level code runs, tick, capture, report; the host also calls a variable that holds a function by name) over a generated package whose function and method bodies return a version tag; captured before reloads: a function value in a no-initialiser global, function values in struct fields and in a slice, a bound method value, an instance; state: no-initialiser int and counters, two ints and two floats declared in one var statement, a map and a slice that exist but are empty at some reloads (all kept), the host spelling the package directory in several equivalent ways, int and string variables with initialisers (re-initialised), variables whose initialiser spells the zero value (re-initialised), a function whose locals shadow package variables and are updated with += / ++ ; versions also differ in the arity of an internal helper and in added methods; every version brings 130 literals of its own (the VM's tables grow on its first load); the package imports a package whose source never changes (its initialised variable starts over with every load, its other variable is kept); through Load of a package and through repeated Eval of the definitions. non-trivial = at least 2 loads and 1 report after a capture; distinct by history")
 	r.Assume("the model encodes the contract stated in the property: after loading version k every function and method - also through references captured earlier - runs version k's body; variables without initialiser keep their values, variables with initialiser are reset, instances keep their fields")
 	n := r.N(3000, 120000)
 	core.Parallel((n+49)/50, func(chunk int) {
